@@ -324,3 +324,112 @@ Proof.
   cbv zeta. split; [vm_compute; reflexivity|]. split; [reflexivity|]. split; [vm_compute; reflexivity|].
   split; [vm_compute; reflexivity|]. split; [vm_compute; reflexivity|]. split; [cbn; lia|vm_compute; reflexivity].
 Qed.
+
+(* ================= the WRITTEN FILE as the subject (Proofs/PyArraysFile.v) =================
+   Above, [values_wig] / [values_bed] take the stored items of the chromosome and filter them as the readers do.  Here
+   the middle of the wrappers is the READER MODEL on a byte image: [PyArraysFile.values_wig_file num infl bs i c ...] /
+   [values_bed_file infl f i c ...] look the chromosome's length up in the table read from the file ([chrom_len]; unknown
+   chromosome: refused), clamp the request to [max s 0, max (min e len) 0) (C20_fetch_clamp), ask [bw_interval] /
+   [bb_interval] ON THE BYTES for that range (cast to u32), hand the answer to the array routine and run the
+   out-of-bounds block.  For the bytes returned by the writer models (bigWig: [bw_write] / [bw_write_multipass] under
+   C01's hypotheses; bigBed: [bb_write] / [bb_write_multipass] under C02's [file_hyps]) the reader's answer is the
+   filter of the data that was WRITTEN (C01_query_on_input; C04_written_file_query), so the array is stated in terms
+   of the input: [vals_of inp c] (the input's values for c, input order) resp. the run [(c, es)] of the input.
+   bigBed: the reader returns every entry that overlaps OR MERELY TOUCHES the fetched range ([bkeep]); that is the model's
+   [fetch_bed true], and the theorems above hold for either [touch].
+   [num] = the number (eighths) a stored f32 pattern stands for, [infl] the decompressor (files are uncompressed): arbitrary. *)
+From BT Require Model.BBIFile Model.BigWigWrite Model.BBIRead Model.BigBedWrite Model.BBIReadBed Proofs.RTreeCodec
+  Proofs.BigWigFileChroms Proofs.BigWigFileRoundTrip Proofs.BigWigFileInput Proofs.BedEndToEnd Proofs.BedZoomFit Proofs.PyArraysFile.
+
+(* EVERY call of the wrapper on the written bytes (any range, also end <= start; per base or any bin count; any statistic,
+   missing, oob) is the wrapper on the written values, and the length it clamps against is the supplied chromosome length *)
+Theorem C20_values_wig_written : forall fp o sizes inp bs,
+  BigWigFileRoundTrip.opts_ok o -> BigWigFileRoundTrip.input_ok sizes inp -> (Nlen bs < RTreeCodec.U64)%N ->
+  BigWigWrite.bw_write fp o sizes inp = Ok bs \/ BigWigWrite.bw_write_multipass fp o sizes inp = Ok bs ->
+  exists i, BBIRead.read_info bs = Ok i /\
+  forall num infl c, In c (map fst inp) ->
+  PyArraysFile.chrom_len i c = Some (Z.of_N (BigWigFileChroms.len_of sizes c)) /\
+  forall s e bins st missing oob,
+    PyArraysFile.values_wig_file num infl bs i c s e bins st missing oob =
+    values_wig (Z.of_N (BigWigFileChroms.len_of sizes c)) (map (PyArraysFile.wv_of num) (BigWigFileInput.vals_of inp c))
+      s e bins st missing oob.
+Proof. exact PyArraysFile.values_wig_written. Qed.
+Print Assumptions C20_values_wig_written.
+
+Theorem C20_values_bed_written : forall two_pass fp o sizes autosql input f,
+  BedZoomFit.bb_write_either two_pass fp o sizes autosql input = Ok f -> BedEndToEnd.file_hyps o sizes input f ->
+  exists i, BBIRead.read_info f = Ok i /\
+  forall infl c es, In (c, es) (BigBedWrite.bruns input) ->
+  exists len, BBIFile.lookup c sizes = Some len /\ PyArraysFile.chrom_len i c = Some (Z.of_N len) /\
+  forall s e bins st missing oob,
+    PyArraysFile.values_bed_file infl f i c s e bins st missing oob =
+    values_bed true (Z.of_N len) (map PyArraysFile.be_of es) s e bins st missing oob.
+Proof. exact PyArraysFile.values_bed_written. Qed.
+Print Assumptions C20_values_bed_written.
+
+(* C20_per_base and C20_bins with the bytes as the subject, bigWig.  The written values of the chromosome are accepted
+   by the writer (start <= end <= length, no overlap: C01_accepted_runs); C20's [wig_ok] also wants them non-empty. *)
+Theorem C20_values_file : forall fp o sizes inp bs,
+  BigWigFileRoundTrip.opts_ok o -> BigWigFileRoundTrip.input_ok sizes inp -> (Nlen bs < RTreeCodec.U64)%N ->
+  BigWigWrite.bw_write fp o sizes inp = Ok bs \/ BigWigWrite.bw_write_multipass fp o sizes inp = Ok bs ->
+  exists i, BBIRead.read_info bs = Ok i /\
+  forall num infl c, In c (map fst inp) ->
+  Forall (fun v => (BigWigWrite.v_start v < BigWigWrite.v_end v)%N) (BigWigFileInput.vals_of inp c) ->
+  let len := Z.of_N (BigWigFileChroms.len_of sizes c) in
+  let vals := map (PyArraysFile.wv_of num) (BigWigFileInput.vals_of inp c) in
+  forall s e st missing oob, s < e ->
+  PyArraysFile.values_wig_file num infl bs i c s e None st missing oob
+    = Ok (map (base_cell (wig_at vals) len missing oob) (seqZ s (Z.to_nat (e - s))))
+  /\ forall bins, 0 < bins <= e - s ->
+     PyArraysFile.values_wig_file num infl bs i c s e (Some bins) st missing oob
+       = Ok (map (fun k => bin_cell (wig_at vals) len st missing oob
+                             (s + bin_edge k (e - s) bins) (s + bin_edge (k + 1) (e - s) bins))
+                 (seqZ 0 (Z.to_nat bins))).
+Proof. exact PyArraysFile.values_file_wig. Qed.
+Print Assumptions C20_values_file.
+
+(* ... bigBed.  [bed_ok 0 len (map be_of es)]: the run's entries are non-empty, end inside the chromosome and start in
+   non-decreasing order (the writer checks the order and start < length, not the end: notes/C02.md). *)
+Theorem C20_values_file_bed : forall two_pass fp o sizes autosql input f,
+  BedZoomFit.bb_write_either two_pass fp o sizes autosql input = Ok f -> BedEndToEnd.file_hyps o sizes input f ->
+  exists i, BBIRead.read_info f = Ok i /\
+  forall infl c es, In (c, es) (BigBedWrite.bruns input) ->
+  exists len, BBIFile.lookup c sizes = Some len /\
+  (bed_ok 0 (Z.of_N len) (map PyArraysFile.be_of es) ->
+   forall s e st missing oob, s < e ->
+   PyArraysFile.values_bed_file infl f i c s e None st missing oob
+     = Ok (map (base_cell (bed_at (map PyArraysFile.be_of es)) (Z.of_N len) missing oob) (seqZ s (Z.to_nat (e - s))))
+   /\ forall bins, 0 < bins <= e - s ->
+      PyArraysFile.values_bed_file infl f i c s e (Some bins) st missing oob
+        = Ok (map (fun k => bin_cell (bed_at (map PyArraysFile.be_of es)) (Z.of_N len) st missing oob
+                              (s + bin_edge k (e - s) bins) (s + bin_edge (k + 1) (e - s) bins))
+                  (seqZ 0 (Z.to_nat bins)))).
+Proof. exact PyArraysFile.values_file_bed. Qed.
+Print Assumptions C20_values_file_bed.
+
+(* non-vacuity: PyArraysFile.values_file_example_hyps (every hypothesis met: bigWig of two chromosomes / three sections,
+   bigBed with overlapping and nested entries) and values_file_example_run, evaluated by vm_compute from the input through
+   the bytes: bigWig range [-2,14) per base and [2,12) in 3 bins of unequal width; unknown chromosome refused; the bigBed
+   reader asked for [20,30) returns two entries that only touch the range, and they leave the array untouched *)
+Example C20_values_file_example :
+  match BBIRead.read_info PyArraysFile.pf_wbytes with
+  | Ok i =>
+      PyArraysFile.values_wig_file PyArraysFile.pf_num (fun x => x) PyArraysFile.pf_wbytes i [97%N] (-2) 14 None Mean (FV 20) PyArrays.FNaN =
+        Ok [ONaN; ONaN; OQ 12 1; OQ 12 1; OQ 12 1; OQ 12 1; OQ 8 1; OQ 8 1; OQ 20 1; OQ 20 1; OQ 20 1;
+            OQ (-12) 1; OQ (-12) 1; OQ (-12) 1; ONaN; ONaN] /\
+      PyArraysFile.values_wig_file PyArraysFile.pf_num (fun x => x) PyArraysFile.pf_wbytes i [97%N] 2 12 (Some 3) Mean (FV 20) PyArrays.FNaN =
+        Ok [OQ 32 3; OQ 8 1; OQ (-36) 3] /\
+      PyArraysFile.values_wig_file PyArraysFile.pf_num (fun x => x) PyArraysFile.pf_wbytes i [99%N] 2 12 (Some 3) Mean (FV 20) PyArrays.FNaN =
+        Err PyArraysFile.E_NOCHROM_PY
+  | _ => False
+  end /\
+  match BBIRead.read_info PyArraysFile.pf_bbytes with
+  | Ok i =>
+      BBIReadBed.bb_interval (fun x => x) PyArraysFile.pf_bbytes i [99%N] 20 30 = Ok [PyArraysFile.pf_e 5 20; PyArraysFile.pf_e 30 40] /\
+      PyArraysFile.values_bed_file (fun x => x) PyArraysFile.pf_bbytes i [99%N] 4 12 None Mean (FV 20) PyArrays.FNaN =
+        Ok [OQ 8 1; OQ 24 1; OQ 24 1; OQ 24 1; OQ 16 1; OQ 16 1; OQ 8 1; OQ 8 1] /\
+      PyArraysFile.values_bed_file (fun x => x) PyArraysFile.pf_bbytes i [99%N] 4 12 (Some 2) Mean (FV 20) PyArrays.FNaN = Ok [OQ 80 4; OQ 48 4] /\
+      PyArraysFile.values_bed_file (fun x => x) PyArraysFile.pf_bbytes i [99%N] 20 44 (Some 3) Max (FV 20) PyArrays.FNaN = Ok [OQ 20 1; OQ 8 1; ONaN]
+  | _ => False
+  end.
+Proof. exact PyArraysFile.values_file_example_run. Qed.
